@@ -20,10 +20,16 @@ sid=sys.argv[1]
 det=json.load(open('/tmp/wt/ev_%s.json'%sid))
 p='/verif/seeded/%s/meta.json'%sid
 meta=json.load(open(p))
+if det and all(any(x.startswith('R0 ') for x in v) for v in det.values()):
+    # the changed code no longer compiles on the current tree (the construct was restructured by a later fix)
+    meta['obsolete']='does not compile on the current tree: '+[x for x in det[meta['property']] if x.startswith('R0 ')][0][:200]
+    det={}
+else:
+    meta.pop('obsolete',None)
 meta['detected_by']={k:[x.split(': ')[0] for x in v] for k,v in det.items()}
 meta['detected_by_own_property']= meta['property'] in det
 json.dump(meta,open(p,'w'),indent=1)
-print(sid, 'own' if meta['property'] in det else 'NOT-OWN', sorted(det))
+print(sid, 'OBSOLETE' if meta.get('obsolete') else 'own' if meta['property'] in det else 'NOT-OWN', sorted(det))
 PY
   rm -f /tmp/wt/ev_$id.json /tmp/wt/ev_$id.err
 }
